@@ -30,6 +30,7 @@ type Descriptor struct {
 	Models        []string          `json:"models"`         // models / stubs in the trusted base
 	AllowAborts   []string          `json:"allow_aborts"`   // abort reasons (substring) that are stated exclusions, not inconclusive
 	Technique     string            `json:"technique"`
+	Stubs         map[string]string `json:"stubs"` // function (ssa name) -> stub kind (fresh-copy | identity | noop)
 	dirPath       string
 }
 
